@@ -388,6 +388,8 @@ type Frame struct {
 	iterOrd    map[ssa.Instruction]int
 	nextOverride *[3]Val // re-running a map-range body: the element the iterator delivers
 	quiet        bool    // obligations generated in this frame are discarded (auxiliary re-execution)
+	ranges       map[ssa.Value]*rangeInfo     // collections range builders (walk.go)
+	iterKey      map[int]func(string) string // callback iteration N: last key component of element j (iterkey(N, j))
 }
 
 type deferRec struct {
@@ -1571,7 +1573,13 @@ func (fr *Frame) execBlock(b *ssa.BasicBlock, st *State) {
 			}
 			// nil dereference obligation for non-allocated roots
 			if a.kind == aObj && len(a.path) == 0 && base.Addr == nil {
-				e.addObl(st, "panic.nil", fr.lbl(fr.srcOf(x, x.X.Name()+"."+stt.Field(x.Field).Name())), not(eq(a.ref, "0")), x.Pos())
+				if e.ghostOfValue(x.X) != nil {
+					// a collections store of a keeper (k.Store.Indexes...): set once by NewKeeper, never nil
+					e.note("approx", "collections stores held by a keeper are non-nil (constructed by NewKeeper)")
+					e.assumeIn(st, not(eq(a.ref, "0")))
+				} else {
+					e.addObl(st, "panic.nil", fr.lbl(fr.srcOf(x, x.X.Name()+"."+stt.Field(x.Field).Name())), not(eq(a.ref, "0")), x.Pos())
+				}
 			}
 			na := *a
 			na.path = append(append([]pathStep{}, a.path...), pathStep{field: x.Field, ct: a.T})
